@@ -138,6 +138,15 @@ class Resource(_ExposesWellknownAttributes, interfaces.Resource):
                 response_default = Code.CHANGED
             response.code = response_default
 
+        if not response.code.is_response():
+            # The message layer only treats response codes as responses: any
+            # other code would be sent out as a message of our own, leaving
+            # the request unanswered.
+            raise ValueError(
+                "Render method returned a message with the non-response code %r"
+                % (response.code,)
+            )
+
         if response.opt.no_response is None:
             response.opt.no_response = request.opt.no_response
 
